@@ -287,7 +287,9 @@ static void exec_fix(unsigned long flags, const char *s, const char *flt) {
   int r1 = hwloc_topology_export_synthetic(t, b1, sizeof b1, flags);
   if (r1 < 0) { fputs("fix export-fail\n", fout); return; }
   fputs("fix ", fout); put_hex(fout, b1);
-  /* the exported string is re-imported with every type it can name kept (LEGACY_F), whatever filters built `t` */
+  /* the exported string is re-imported with every type it can name kept (LEGACY_F), whatever filters built `t`: under the
+   * filters of the first load a kept-for-structure level could be merged away again once the export flags dropped what made it
+   * differ (tried: false alarms); the one filter-induced non-fixpoint that remains is the known finding F78 */
   int pr = probe_load(b1, LEGACY_F);
   if (pr == 1) { fputs(" load2=EINVAL\n", fout); return; }
   if (pr != 0) { fputs(pr == 3 ? " load2=crash\n" : " load2=loadfail\n", fout); return; }
@@ -472,11 +474,7 @@ static int emit_load_cfg(const char *s, const char *flt, int all) {
         exec_export(flags, caps[k], s, flt); stats[S_EXPORT]++;
       }
     }
-    /* PARKED (genuine quirk, reported): with Group KEEP_NONE a NUMA node local to a part of the machine hangs from the root even
-       when the root has a single child with the root's cpuset (the child is inserted later); the export is then
-       "[NUMANode] Package:1 ..." whose re-import attaches the node to the Package: export/import/export is not a fixpoint.
-       e.g. "Package:1 group:3 numa:1 pu:1" with Group KEEP_NONE.  No round-trip op under that filter. */
-    if ((flags == 0 || rng_chance(40)) && flt[HWLOC_OBJ_GROUP] != '1') {
+    if (flags == 0 || rng_chance(40)) {
       fprintf(fops, "fix %lu ", flags); put_desc(fops, s, flt); fputc('\n', fops);
       exec_fix(flags, s, flt); stats[S_FIX]++;
     }
